@@ -175,7 +175,11 @@ impl<'a> LinearLocator<'a> {
     ) -> (OneIndexed, Option<LinearLocatorState>) {
         let (column, new_state) = if let Some(new_line_start) = self.state.new_line_start(offset) {
             // not fit in current line
-            let focused = &self.source[new_line_start.to_usize()..offset.to_usize()];
+            let mut focused = &self.source[new_line_start.to_usize()..offset.to_usize()];
+            // an offset between the CR and the LF of a CRLF is still on the line that CRLF ends
+            if focused.ends_with('\r') && self.source[offset.to_usize()..].starts_with('\n') {
+                focused = &focused[..focused.len() - 1];
+            }
             let (lines, line_start, column) =
                 if let Some(last_newline) = memrchr2(b'\r', b'\n', focused.as_bytes()) {
                     let last_newline = new_line_start.to_usize() + last_newline;
